@@ -159,7 +159,7 @@ class C11(Prop):
             'include_prefixes values, and 3 drawn type sets for search_ancestor. Oracle: in-order leaf list by own descent over '
             'children with leaf spans from the reference character walker over prefix+value (not parso\'s positions); identity comparisons. Non-trivial: tree has >=2 equal-valued operator/keyword siblings under one parent '
             '(identity-vs-equality trap) or a zero-width error leaf. elementary_checks counts position lookups.')
-    budgets = {'quick': 8000, 'thorough': 200000}
+    budgets = {'quick': 8000, 'thorough': 800000}
 
     def strategy(self, tier):
         w = {'op': 8, 'layout': 6}
